@@ -3,6 +3,7 @@ package protoprint
 import (
 	"fmt"
 	"slices"
+	"strconv"
 	"strings"
 
 	"github.com/pentops/j5/internal/j5s/protoprint/optionreflect"
@@ -206,6 +207,25 @@ func (ind *fileBuilder) printOptionMessageFields(children []optionreflect.Option
 
 }
 
+// defaultJSONName is the JSON name protoc and protocompile derive for a field
+// which doesn't set json_name: underscores are dropped and the letter after
+// one is upper-cased.
+func defaultJSONName(name string) string {
+	out := make([]byte, 0, len(name))
+	wasUnderscore := false
+	for i := 0; i < len(name); i++ {
+		c := name[i]
+		if c != '_' {
+			if wasUnderscore && c >= 'a' && c <= 'z' {
+				c -= 'a' - 'A'
+			}
+			out = append(out, c)
+		}
+		wasUnderscore = c == '_'
+	}
+	return string(out)
+}
+
 func (fb *fileBuilder) printFieldStyle(name string, number int32, elem protoreflect.Descriptor) error {
 
 	srcLoc := elem.ParentFile().SourceLocations().ByDescriptor(elem)
@@ -213,6 +233,19 @@ func (fb *fileBuilder) printFieldStyle(name string, number int32, elem protorefl
 	options, err := fb.optionsFor(elem)
 	if err != nil {
 		return err
+	}
+
+	if field, ok := elem.(protoreflect.FieldDescriptor); ok && !field.IsExtension() {
+		// A JSON name other than the one the parser derives from the field
+		// name is part of the descriptor, it has to be written out.
+		if jsonName := field.JSONName(); jsonName != "" && jsonName != defaultJSONName(string(field.Name())) {
+			quoted := strconv.Quote(jsonName)
+			options = append([]parsedOption{{
+				inline:        true,
+				inlineString:  &quoted,
+				qualifiedName: "json_name",
+			}}, options...)
+		}
 	}
 
 	fb.leadingComments(srcLoc)
